@@ -29,7 +29,8 @@ PROPS = ("C13",)
 GEN_TAKES_PROP = True
 
 KINDS = ("generic_c", "generic_u", "generic_us", "read1", "readfrag", "write1", "writefrag", "rmw", "multiread",
-         "multiwrite", "upload_page", "upload_template", "upload_template_attrs", "register", "list_identity", "plc_info")
+         "multiwrite", "upload_page", "upload_template", "upload_template_attrs", "register", "list_identity", "plc_info",
+         "discover")
 # services for which status 6 means "more to come" and the library must continue
 CONTINUE_6 = {"readfrag", "upload_page", "upload_template"}
 # members of the library's MULTI_PACKET_SERVICES where the statement does not decide what 6 means
@@ -347,6 +348,11 @@ def run(sc):
         if kind == "list_identity":
             state["armed"] = True
             o0, r0 = harness.call(sim, lib.CIPDriver.list_identity, "10.0.0.1")
+        elif kind == "discover":
+            # the only device on the broadcast domain answers the ListIdentity broadcast with the faulted reply:
+            # a non-empty result means that reply was taken for a success
+            state["armed"] = True
+            o0, r0 = harness.call(sim, lib.CIPDriver.discover)
         else:
             if kind in ("register", "upload_page", "upload_template", "upload_template_attrs", "plc_info"):
                 state["armed"] = True
@@ -416,11 +422,12 @@ def judge(sc, env, kind, fault, state, outcome, res, hits, ref):
     if state["delivered"] is None or state["info"].get("inapplicable"):
         return      # the fault position was not reached: nothing to judge
     delivered = state["delivered"]
-    expected_cmd = {"register": 0x65, "list_identity": 0x63, "generic_u": 0x6F, "generic_us": 0x6F, "plc_info": 0x6F}.get(kind, 0x70)
+    expected_cmd = {"register": 0x65, "list_identity": 0x63, "discover": 0x63, "generic_u": 0x6F, "generic_us": 0x6F,
+                    "plc_info": 0x6F}.get(kind, 0x70)
     c = classify(delivered, expected_cmd)
     results = res if isinstance(res, list) else [res]
     truthy_any = outcome == "ok" and any(bool(x) for x in results if x is not None) and res is not False
-    if kind in ("register", "list_identity", "upload_page", "upload_template", "upload_template_attrs", "plc_info"):
+    if kind in ("register", "list_identity", "discover", "upload_page", "upload_template", "upload_template_attrs", "plc_info"):
         truthy_any = outcome == "ok" and bool(res)
     if c["cls"] == "short":
         if truthy_any and not multi_other_ok(kind, results):
@@ -442,7 +449,7 @@ def judge(sc, env, kind, fault, state, outcome, res, hits, ref):
         if bad:
             hits.hit("C13", "reply.classify", f"{kind}: header-only encapsulation error 0x{c['status']:x} reported as success: "
                      f"{str(res)[:100]}", outcome="truthy-on-error", status="encap", **f)
-        elif outcome == "ok" and kind not in ("register", "list_identity") and not all_have_error(results):
+        elif outcome == "ok" and kind not in ("register", "list_identity", "discover") and not all_have_error(results):
             hits.hit("C13", "reply.classify", f"{kind}: encapsulation error 0x{c['status']:x} gave an empty error text",
                      outcome="empty-error", status="encap", **f)
         return
@@ -476,7 +483,7 @@ def judge(sc, env, kind, fault, state, outcome, res, hits, ref):
         hits.hit("C13", "reply.classify", f"{kind}: reply with general status 0x{st:02x} ext {ext} was reported as success: "
                  f"{str(res)[:120]}", outcome="truthy-on-error", status=("6" if six else "nonzero"), **f)
         return
-    if outcome == "ok" and kind not in ("register", "list_identity", "upload_page", "upload_template",
+    if outcome == "ok" and kind not in ("register", "list_identity", "discover", "upload_page", "upload_template",
                                         "upload_template_attrs", "plc_info"):
         for x in results:
             if x is None:
@@ -590,6 +597,9 @@ def base_scenario(kind, seed, fw=32):
         sc["count_kind"] = "register"
     elif kind == "list_identity":
         sc["count_kind"] = "list_identity"
+    elif kind == "discover":
+        sc["count_kind"] = "list_identity"
+        sc["world"]["udp_net"] = "192.168.1.10"
     elif kind == "plc_info":
         sc["count_service"] = 0x01
     return sc
@@ -604,7 +614,7 @@ def directed(tier, prop="C13"):
     seed = 1
     sts = list(range(256))
     for kind in KINDS:
-        if kind in ("register", "list_identity"):
+        if kind in ("register", "list_identity", "discover"):
             for s in (1, 2, 3, 0x64, 0x65, 0x69, 0xFFFF, 0x10000, 0x80000000, 0xFFFF0000):
                 for dcls in (("LogixDriver", "CIPDriver") if kind == "register" else ("LogixDriver",)):
                     sc = base_scenario(kind, seed)
@@ -731,7 +741,7 @@ def gen(seed, tier, prop="C13"):
         sc["op"]["data_type"] = r.choice(("DINT", "UINT", "STRING"))
     nth = r.randrange(n_replies(kind))
     c = r.random()
-    if kind in ("register", "list_identity"):
+    if kind in ("register", "list_identity", "discover"):
         if c < 0.3:
             mut = {"type": "encap", "status": r.choice((1, 2, 3, 0x64, 0x65, 0x69, 0x10000, 0x80000000, 0xFFFF0000, r.randrange(1, 2**32)))}
         elif c < 0.6:
